@@ -67,3 +67,9 @@ Definition run_collect (cases : list ((list dunion * list str) * list (option (l
   report (list_eqb (opt_eqb (list_eqb str_eqb)))
          (fun c => map (fun V => alookup V (collect (fst c))) (snd c))
          (fun c => [guard_F14g (fst c); guard_F14h (fst c)]) cases.
+
+(* the same with variants that declare their own discriminator enum: case = ((own, unions), variants) *)
+Definition run_collect_o (cases : list (((ptab * list dunion) * list str) * list (option (list str)))) : list N :=
+  report (list_eqb (opt_eqb (list_eqb str_eqb)))
+         (fun c => map (final_enum (fst (fst c)) (snd (fst c))) (snd c))
+         (fun c => [guard_F14g (snd (fst c)); guard_F14h (snd (fst c))]) cases.
